@@ -30,7 +30,10 @@ RULE = ("case = (symmetry [7], local space: named operator class or random gener
         "(full / fractional / D=1 manifold) or random_mps(D_total), canonical (possibly with factor != 1) or not, real or "
         "complex, method 1site / 2site / yastn.Method switching, opts_eigs variant (None, explicit which='SR', or dictionaries "
         "that leave which / hermitian / ncv to the defaults of yastn.eigs, incl. {}), optional shift H + c*1 with c above the "
-        "spectral radius (all levels positive), opts_svd binding or not, precompute, convergence tolerances, "
+        "spectral radius (all levels positive), special operators H = 0 / c*identity / 10^k * H (k = -8..8), start scaled by a "
+        "factor or on one site tensor by up to 10^+-20, N = 1..6(8), call form iterator=True / iterator_step=s / direct, optional "
+        "arguments omitted one at a time or all together, option dictionaries and the MPO list in shuffled order, project=[] / "
+        "default / tuple / repeated state / two eigenstates in any order, must-reject arguments, max_sweeps=0, opts_svd {} or binding, precompute, convergence tolerances, "
         "1-6 sweeps; optional convergence stage and penalised stage); distinct = hash of those structural choices; "
         "non-trivial = sector dimension >= 2 and at least one sweep monitored")
 ASSUMPTIONS = ["numpy.linalg.eigvalsh / dense matrix-vector products on <= 4096-dimensional sectors are the truth",
@@ -63,6 +66,10 @@ def floors(tier):
          "truncation_binding_sweeps": 2 * k, "fermionic_cases": 10 * k,
          "runs_opts_eigs_without_which_on_positive_spectrum": 10 * k, "opts_eigs:without-which": 20 * k,
          "opts_eigs:with-which": 20 * k, "opts_eigs:None": 10 * k, "H_shifted_by_positive_constant": 15 * k,
+         "form:direct": 20 * k, "form:step": 10 * k, "omitted:all": 5 * k, "omitted:none": 20 * k, "iterator_vs_direct_compared": 8 * k,
+         "H_special:zero": 2 * k, "H_special:identity": k, "H_special:scaled": 3 * k, "start:scaled": 10 * k, "N=1": 5 * k,
+         "N=2": 10 * k, "must_reject_ok": 3 * k, "max_sweeps=0_cases": 1 * k, "project=[]": 3 * k,
+         "2site_with_empty_opts_svd": 3 * k, "penalised2_premise_met": 2 * k,
          "penalised_runs_opts_eigs_without_which": (5 if tier == "thorough" else 1),
          "converge_runs_without_which_on_positive_spectrum": (5 if tier == "thorough" else 1)}
     if tier == "thorough":
@@ -77,7 +84,7 @@ def floors(tier):
 def draw_case(ctx, idx):
     rng, nprng = ctx.rng(idx), ctx.nprng(idx)
     sym = G.ALL_SYMS[idx % len(G.ALL_SYMS)]
-    Nch = (2, 3, 3, 4, 4, 5, 5, 6) + ((7, 8) if ctx.tier == "thorough" else ())
+    Nch = (1, 2, 2, 3, 3, 4, 4, 5, 5, 6) + ((7, 8) if ctx.tier == "thorough" else ())
     sp, N, groups = T.draw_chain(rng, nprng, sym, Nch)
     return {"sym": sym, "N": N, "sp": sp, "groups": groups, "form": rng.choice(T.H_FORMS), "rng": rng, "nprng": nprng,
             "seed_backend": rng.randrange(2 ** 31)}
@@ -106,9 +113,17 @@ def initial_state(cs, n, counts, kind=None):
     canon = rng.random() < 0.4
     if canon:
         psi.canonize_(to="first")
-        if rng.random() < 0.25:
-            psi = rng.choice((2.0, 0.5, -1.5)) * psi        # canonical tensors, psi.factor != 1: dmrg_ must still normalise
-            desc["scaled"] = True
+    if rng.random() < 0.25:
+        # any norm is legal: dmrg_ returns a normalised state regardless of psi.factor or of the scale of a site tensor
+        f = rng.choice((2.0, 0.5, -1.5, 10.0 ** rng.randint(-20, 20), -(10.0 ** rng.randint(-20, 20))))
+        if rng.random() < 0.5:
+            psi = f * psi                                   # psi.factor != 1 (tensors untouched: still canonical if it was)
+            desc["scaled"] = ["factor", f]
+        else:
+            j = rng.randrange(N)
+            psi[j] = f * psi[j]
+            desc["scaled"] = ["site", j, f]
+            canon = False
     desc["canonical"] = canon
     return psi, desc
 
@@ -299,11 +314,14 @@ def observe(ctx, psi, dn, tag, witness, out=None, gram=0.0, eigs_nonunit=0.0):
     return v[dn.idx] / nv, nv
 
 
-def judge_sweep(ctx, out, vs, nv, dn, st, tag, witness, gram=0.0, eigs_rise=0.0):
+def judge_sweep(ctx, out, vs, nv, dn, st, tag, witness, gram=0.0, eigs_rise=0.0, span=1):
     """Energy clauses after one sweep.  st: running state of the monitored run (dict).
 
     E  = Rayleigh quotient of the returned state (variational bound, monotonicity);
-    Eu = <psi|H|psi> of the state exactly as returned (what DMRG_out.energy must equal; == E when normalised)."""
+    Eu = <psi|H|psi> of the state exactly as returned (what DMRG_out.energy must equal; == E when normalised).
+    span = number of sweeps since the previous observation (1 for iterator=True; > 1 for iterator_step > 1 and for the direct
+    form): DMRG_out.denergy and max_discarded_weight then describe the last sweep only, so denergy is not compared and the
+    monotonicity clause is judged only when no sweep in between can have truncated (1site)."""
     tol = ETOL * dn.scale
     E = dn.energy(vs)
     Ep = dn.pen_energy(vs) if dn.pen else E
@@ -337,8 +355,10 @@ def judge_sweep(ctx, out, vs, nv, dn, st, tag, witness, gram=0.0, eigs_rise=0.0)
     if not penal and out.energy < lo - tol and abs(nv - 1.0) <= NTOL:
         ctx.violation("below-ground-state:reported", f"{tag}: reported energy {out.energy!r} below the lowest sector eigenvalue {lo!r}", witness)
     # --- monotonicity of the functional that is minimised: <H> + sum penalty |<phi|psi>|^2
-    nothing_truncated = (dw is None) or (dw <= 1e-14)
-    if nothing_truncated:
+    nothing_truncated = (dw is None) or (dw <= 1e-14 and span == 1)
+    if span > 1 and dw is not None:
+        ctx.count("monotone_not_judged_unobserved_sweeps")
+    elif nothing_truncated:
         ctx.count("monotone_judged")
         if not within(ctx, "monotone", max(0.0, Ep - st["Ep_prev"]), tol):
             ctx.violation(EIGS_KEY if eigs_rise > tol else "energy-increased:" + ("penalised" if penal else str(out.method)),
@@ -357,7 +377,7 @@ def judge_sweep(ctx, out, vs, nv, dn, st, tag, witness, gram=0.0, eigs_rise=0.0)
         ctx.violation("bookkeeping:method", f"{tag}: DMRG_out.method = {out.method!r}, requested {st['method']!r}", witness)
     if (out.max_discarded_weight is None) != (st["method"] == "1site"):
         ctx.violation("bookkeeping:max_discarded_weight", f"{tag}: max_discarded_weight = {dw!r} for method {st['method']}", witness)
-    if not penal:
+    if not penal and span == 1:
         dE = abs(Eu - st["Eu_prev"])
         if not ctx.margin("denergy", abs(out.denergy - dE), 2 * tol):
             ctx.violation("bookkeeping:denergy", f"{tag}: DMRG_out.denergy = {out.denergy!r} but |E_k - E_(k-1)| = {dE!r}", witness)
@@ -379,9 +399,81 @@ def schmidt_full(vs_full, sp, N, counts, thr=1e-8):
     return True
 
 
-def monitored_run(ctx, psi, H, dn, counts, cfgrun, tag, witness, stop_when_converged=False):
-    """Drive dmrg_ as an iterator and judge after every sweep.  Returns summary dict."""
+def shuffled_dict(rng, d):
+    """The same options inserted in another order (dictionaries remember insertion order; it must not matter)."""
+    items = list(d.items())
+    rng.shuffle(items)
+    return dict(items)
+
+
+DEFAULTS = {"method": "1site", "max_sweeps": 1, "precompute": False}
+
+
+def apply_omissions(cfgrun):
+    """Arguments listed in cfgrun['omit'] are not passed to dmrg_: the run configuration is forced to their documented
+    defaults so that the oracle knows what was asked for (method='1site', max_sweeps=1, precompute=False, opts_* = None,
+    energy_tol = Schmidt_tol = project = None)."""
+    omit = cfgrun.get("omit", frozenset())
+    if "method" in omit:
+        cfgrun["methods"] = ["1site"] * len(cfgrun["methods"])
+        cfgrun["use_Method"] = False
+    if "max_sweeps" in omit:
+        cfgrun["methods"] = cfgrun["methods"][:1]
+    if "precompute" in omit:
+        cfgrun["precompute"] = False
+    for k in ("opts_eigs", "opts_svd", "energy_tol", "Schmidt_tol", "project"):
+        if k in omit:
+            cfgrun[k] = None
+    if "2site" in cfgrun["methods"] and cfgrun.get("opts_svd") is None:
+        cfgrun["opts_svd"] = {}                       # 2site needs opts_svd; the empty dictionary means "no truncation"
+    return cfgrun
+
+
+def dmrg_kwargs(cfgrun, rng=None):
     import yastn
+    omit = cfgrun.get("omit", frozenset())
+    methods = cfgrun["methods"]
+    kw = {}
+    method = None
+    if "method" not in omit:
+        method = yastn.Method(methods[0]) if cfgrun["use_Method"] else methods[0]
+        kw["method"] = method
+    if "max_sweeps" not in omit:
+        kw["max_sweeps"] = len(methods)
+    if "precompute" not in omit:
+        kw["precompute"] = cfgrun["precompute"]
+    for k in ("opts_eigs", "opts_svd"):
+        if cfgrun.get(k) is not None:
+            kw[k] = shuffled_dict(rng, cfgrun[k]) if rng is not None else dict(cfgrun[k])
+    for k in ("energy_tol", "Schmidt_tol", "project"):
+        if cfgrun.get(k) is not None:
+            kw[k] = cfgrun[k]
+    form = cfgrun.get("form", "iterator")
+    if form == "iterator":
+        kw["iterator"] = True
+    elif form == "step":
+        kw["iterator_step"] = cfgrun["step"]
+        if cfgrun.get("step_with_iterator_flag"):
+            kw["iterator"] = True
+    if rng is not None:
+        kw = shuffled_dict(rng, kw)
+    return kw, method
+
+
+def expected_yields(cfgrun):
+    """Sweep numbers at which dmrg_ hands control back (no convergence tolerance in play)."""
+    M = len(cfgrun["methods"])
+    form = cfgrun.get("form", "iterator")
+    if form == "iterator":
+        return list(range(1, M + 1))
+    if form == "step":
+        s = cfgrun["step"]
+        return [k for k in range(s, M, s)] + [M]
+    return [M]
+
+
+def monitored_run(ctx, psi, H, dn, counts, cfgrun, tag, witness, stop_when_converged=False, rng=None):
+    """Drive dmrg_ (iterator=True, iterator_step=s, or the direct form) and judge every state it hands back."""
     import yastn.tn.mps as mps
     sp = dn.sp
     # energy of the initial state (dmrg_ canonises + normalises it first)
@@ -396,45 +488,51 @@ def monitored_run(ctx, psi, H, dn, counts, cfgrun, tag, witness, stop_when_conve
     install_krylov_probe()
     krylov_reset()
     plan_methods = cfgrun["methods"]            # list of method per sweep
-    method = yastn.Method(plan_methods[0]) if cfgrun["use_Method"] else plan_methods[0]
-    kw = dict(method=method, max_sweeps=len(plan_methods), iterator=True, precompute=cfgrun["precompute"])
-    if cfgrun.get("opts_eigs") is not None:
-        kw["opts_eigs"] = dict(cfgrun["opts_eigs"])
-    if cfgrun.get("opts_svd") is not None:
-        kw["opts_svd"] = dict(cfgrun["opts_svd"])
-    if cfgrun.get("energy_tol") is not None:
-        kw["energy_tol"] = cfgrun["energy_tol"]
-    if cfgrun.get("Schmidt_tol") is not None:
-        kw["Schmidt_tol"] = cfgrun["Schmidt_tol"]
-    if cfgrun.get("project") is not None:
-        kw["project"] = cfgrun["project"]
-    vs = vs0
+    form = cfgrun.get("form", "iterator")
+    kw, method = dmrg_kwargs(cfgrun, rng)
+    tolerances = cfgrun.get("energy_tol") is not None or cfgrun.get("Schmidt_tol") is not None
+    plan_yields = expected_yields(cfgrun)
+    vs, nv = vs0, 1.0
     last = None
     converged = False
-    for out in mps.dmrg_(psi, H, **kw):
-        st["sweeps"] += 1
-        k = st["sweeps"]
-        st["method"] = plan_methods[k - 1]
+    ctx.count("form:" + form)
+    outs = mps.dmrg_(psi, H, **kw)
+    if form == "direct":
+        if not (isinstance(outs, tuple) and hasattr(outs, "energy")):
+            ctx.violation("direct-form:not-a-DMRG_out", f"{tag}: dmrg_ without iterator returned {type(outs).__name__}", witness)
+            return {"vs": vs, "nv": nv, "out": None, "sweeps": 0, "converged": False, "E": st["E_prev"], "Ep": st["Ep_prev"]}
+        outs = [outs]
+    nyield = 0
+    for out in outs:
+        prev = st["sweeps"]
+        if nyield < len(plan_yields):
+            k = plan_yields[nyield]
+        else:
+            k = prev + 1                      # more yields than planned: reported by the bookkeeping clause below
+        nyield += 1
+        if tolerances and form != "iterator" and isinstance(out.sweeps, int) and prev < out.sweeps <= len(plan_methods):
+            k = out.sweeps                    # a convergence tolerance may end the run at any sweep
+        span = k - prev
+        st["sweeps"] = k
+        st["method"] = plan_methods[min(k, len(plan_methods)) - 1]
         ctx.count("sweeps_monitored")
         ctx.count("method:" + st["method"])
         ctx.count("precompute:" + str(cfgrun["precompute"]))
         w = dict(witness, sweep=k, out=list(out))
         gram = KRY["worst"]
         ctx.margin("krylov-gram-defect(diagnostic)", gram, 1.0)
-        if gram > 1e-8:
-            ctx.count("sweeps_with_nonorthonormal_krylov_basis")
-            w["krylov"] = KRY["info"]
         bad_norm, bad_rise = KRY["bad_norm"], KRY["bad_rise"]
         if gram > 1e-8:
+            ctx.count("sweeps_with_nonorthonormal_krylov_basis")
             w["krylov"] = dict(KRY["info"], ritz_vector_norm_defect=bad_norm, rayleigh_quotient_rise=bad_rise)
         vs_new, nv = observe(ctx, psi, dn, f"{tag} sweep {k}", w, out=out, gram=gram, eigs_nonunit=bad_norm)
         krylov_reset()
         if vs_new is None:
             break
         vs = vs_new
-        judge_sweep(ctx, out, vs, nv, dn, st, f"{tag} sweep {k}", w, gram=gram, eigs_rise=bad_rise)
+        judge_sweep(ctx, out, vs, nv, dn, st, f"{tag} sweep {k}", w, gram=gram, eigs_rise=bad_rise, span=span)
         last = out
-        if k < len(plan_methods) and plan_methods[k] != plan_methods[k - 1]:
+        if form == "iterator" and k < len(plan_methods) and plan_methods[k] != plan_methods[k - 1]:
             method.update_(plan_methods[k])
             ctx.count("method_switches")
         h = st["dE_hist"]
@@ -442,7 +540,85 @@ def monitored_run(ctx, psi, H, dn, counts, cfgrun, tag, witness, stop_when_conve
             converged = True
             if stop_when_converged:
                 break
-    return {"vs": vs, "out": last, "sweeps": st["sweeps"], "converged": converged, "E": st["E_prev"], "Ep": st["Ep_prev"]}
+    if not tolerances and not stop_when_converged and nyield != len(plan_yields) and last is not None:
+        ctx.violation("bookkeeping:yields", f"{tag}: dmrg_ handed control back {nyield} times, expected at sweeps {plan_yields} "
+                      f"(form {form}, iterator_step {cfgrun.get('step')})", witness)
+    return {"vs": vs, "nv": nv, "out": last, "sweeps": st["sweeps"], "converged": converged, "E": st["E_prev"], "Ep": st["Ep_prev"]}
+
+
+def compare_forms(ctx, psi0, H, dn, counts, cfgrun, res, witness):
+    """The iterator form and the direct form run the same sweeps: final record and final state must agree."""
+    import yastn.tn.mps as mps
+    cfg2 = dict(cfgrun, form="direct", use_Method=False)
+    kw, _ = dmrg_kwargs(cfg2)
+    out2 = mps.dmrg_(psi0, H, **kw)
+    ctx.count("iterator_vs_direct_compared")
+    out1 = res["out"]
+    tol = ETOL * dn.scale
+    v2, _ = T.mps_dense(psi0, dn.sp)
+    v2 = v2[dn.idx]
+    v1 = res["vs"] * res["nv"]
+    dv = float(np.linalg.norm(v1 - v2))
+    bad = []
+    if out1.sweeps != out2.sweeps or str(out1.method) != str(out2.method):
+        bad.append("sweeps/method")
+    if not ctx.margin("iterator-vs-direct:energy", abs(out1.energy - out2.energy), tol):
+        bad.append("energy")
+    if not ctx.margin("iterator-vs-direct:denergy", abs(out1.denergy - out2.denergy), 2 * tol):
+        bad.append("denergy")
+    if (out1.max_discarded_weight is None) != (out2.max_discarded_weight is None) or \
+            (out1.max_discarded_weight is not None and abs(out1.max_discarded_weight - out2.max_discarded_weight) > 1e-10):
+        bad.append("max_discarded_weight")
+    if (out1.max_dSchmidt is None) != (out2.max_dSchmidt is None) or \
+            (out1.max_dSchmidt is not None and abs(out1.max_dSchmidt - out2.max_dSchmidt) > 1e-8):
+        bad.append("max_dSchmidt")
+    if not ctx.margin("iterator-vs-direct:state", dv, 1e-8):
+        bad.append("state")
+    if bad:
+        ctx.violation("iterator-vs-direct:" + "+".join(bad), f"dmrg_(iterator=True) ended with {tuple(out1)} but the direct form with the same "
+                      f"arguments from the same start returned {tuple(out2)}; ||psi_iter - psi_direct|| = {dv:.3e}", witness)
+
+
+def must_reject(ctx, psi, H, witness, rng):
+    """Inputs the documentation / error messages define as invalid: a YastnError is the expected outcome."""
+    import yastn
+    import yastn.tn.mps as mps
+    what, kw = rng.choice((("energy_tol=0", {"energy_tol": 0}), ("energy_tol<0", {"energy_tol": -1e-6}),
+                           ("Schmidt_tol=0", {"Schmidt_tol": 0}), ("method-unknown", {"method": "one-site"}),
+                           ("2site-without-opts_svd", {"method": "2site"})))
+    ctx.count("must_reject_cases")
+    try:
+        mps.dmrg_(psi.shallow_copy(), H, **kw)
+    except yastn.YastnError:
+        ctx.count("must_reject_ok")
+        return
+    ctx.violation("must-reject:" + what, f"dmrg_(psi, H, {kw}) did not raise YastnError", witness)
+
+
+def probe_max_sweeps_zero(ctx, psi, H, dn, witness, rng):
+    """max_sweeps=0 ("maximal number of sweeps"): acceptable outcomes are a record of zero sweeps describing the canonised,
+    normalised initial state, or a YastnError rejecting the value."""
+    import yastn
+    import yastn.tn.mps as mps
+    ctx.count("max_sweeps=0_cases")
+    v0, _ = T.mps_dense(psi, dn.sp)
+    vs0 = v0[dn.idx] / np.linalg.norm(v0)
+    kw = {"max_sweeps": 0}
+    if rng.random() < 0.5:
+        kw["iterator"] = True
+    try:
+        out = mps.dmrg_(psi, H, **kw)
+        if kw.get("iterator"):
+            out = list(out)[-1]
+    except yastn.YastnError:
+        ctx.count("max_sweeps=0_rejected")
+        return
+    except UnboundLocalError as e:
+        ctx.violation("max_sweeps=0:UnboundLocalError", f"dmrg_(psi, H, {kw}) raised {e!r}: the loop over sweeps never runs and the final "
+                      f"'yield DMRG_out(sweep, ..., E, dE, ...)' reads variables that were never assigned", witness)
+        return
+    if out.sweeps != 0 or abs(out.energy - dn.energy(vs0)) > ETOL * dn.scale:
+        ctx.violation("max_sweeps=0:wrong-record", f"dmrg_(psi, H, {kw}) returned {tuple(out)}; initial energy {dn.energy(vs0)!r}", witness)
 
 
 def judge_eigenstate(ctx, dn, vs, tag, witness):
@@ -463,13 +639,34 @@ def stage_opts(rng):
     return o
 
 
+def special_hamiltonian(rng, H, sp, N):
+    """Extreme but legal operators: H = 0 (factor 0), H = c * identity, H scaled by 10^k with k in -8..8."""
+    import yastn.tn.mps as mps
+    kind = rng.choice(("zero", "identity", "scaled", "scaled", "scaled"))
+    if kind == "zero":
+        Hz = H[0] if isinstance(H, (list, tuple)) else H
+        return 0 * Hz, "single", {"special": "zero"}
+    if kind == "identity":
+        c = rng.choice((-1, 1)) * round(rng.uniform(0.3, 3.0), 3)
+        return c * mps.product_mpo(sp.I, N), "single", {"special": "identity", "c": c}
+    k = rng.choice((-8, -6, -4, -2, 2, 4, 6, 8))
+    f = 10.0 ** k
+    if isinstance(H, (list, tuple)):
+        return type(H)([f * h for h in H]), "list", {"special": "scaled", "log10": k}
+    return f * H, "scaled", {"special": "scaled", "log10": k}
+
+
 def run_case(ctx, idx):
     import yastn.tn.mps as mps
     cs = draw_case(ctx, idx)
     rng, sp, N, sym = cs["rng"], cs["sp"], cs["N"], cs["sym"]
     sp.cfg.backend.random_seed(cs["seed_backend"])
     H, hform = T.build_H(rng, sp, N, cs["groups"], cs["form"])
-    Hd = T.hermitian_dense_or_skip(ctx, H, sp)
+    special = None
+    if rng.random() < 0.12:
+        H, hform, special = special_hamiltonian(rng, H, sp, N)
+        ctx.count("H_special:" + special["special"])
+    Hd = T.hermitian_dense_or_skip(ctx, H, sp, allow_zero=special is not None)
     n, dims = T.pick_charge(rng, sp, N)
     dn = Dense(ctx, Hd, sp, N, n)
     # The lowest level must be targeted wherever the spectrum sits: some Hamiltonians are shifted by +c*identity with c above
@@ -477,17 +674,29 @@ def run_case(ctx, idx):
     # opts_eigs leaves the choice of the targeted Ritz value ('which') to the default of yastn.eigs.
     opts_eigs = rng.choice(OPTS_EIGS)
     shift = None
-    if rng.random() < (0.75 if without_which(opts_eigs) else 0.12):
-        shift = round(float(1.5 * dn.scale + rng.uniform(0.5, 1.5)), 3)
+    if dn.scale > 0 and rng.random() < (0.75 if without_which(opts_eigs) else 0.12):
+        shift = float(dn.scale * (1.5 + rng.uniform(0.3, 1.0)))
         H, hform = shifted(rng, H, sp, N, shift)
         Hd = T.hermitian_dense_or_skip(ctx, H, sp)
         dn = Dense(ctx, Hd, sp, N, n)
     counts = T.block_counts(sp, N, n)
     psi, sdesc = initial_state(cs, n, counts)
+    witness0 = {"idx": idx, "space": sp.desc(), "N": N, "H_form": hform, "H_special": special, "terms": T.terms_desc(cs["groups"]),
+                "shift": shift, "charge": list(n), "start": sdesc}
 
-    # run configuration
+    # ---------------- probes of invalid / degenerate arguments (cheap, judged on their own)
+    r = rng.random()
+    if r < 0.07:
+        must_reject(ctx, psi, H, witness0, rng)
+    elif r < 0.095:
+        probe_max_sweeps_zero(ctx, psi.shallow_copy(), H, dn, witness0, rng)
+
+    # ---------------- run configuration
     nsw = rng.randint(1, 6)
     mode = rng.choice(("1site", "1site", "2site", "2site", "switch21", "switch12"))
+    form = rng.choice(("iterator", "iterator", "iterator", "direct", "step"))
+    if form != "iterator" and mode.startswith("switch"):
+        mode = "2site" if mode == "switch21" else "1site"            # the method can only be switched at a yield
     if mode in ("1site", "2site"):
         methods = [mode] * nsw
     else:
@@ -500,22 +709,47 @@ def run_case(ctx, idx):
         Dfull = max(sum(min(l, r) for l, r in c.values()) for c in counts)
         opts_svd = rng.choice(({"D_total": 4 * Dfull + 4}, {"D_total": 4 * Dfull + 4, "tol": 1e-14},
                                {"D_total": max(1, Dfull // 2), "tol": 1e-10}, {"D_total": rng.randint(1, max(1, Dfull))},
-                               {"tol": 1e-3}, {"D_total": 4 * Dfull + 4, "D_block": max(1, Dfull // 2)}))
+                               {"tol": 1e-3}, {"D_total": 4 * Dfull + 4, "D_block": max(1, Dfull // 2)}, {}, {"D_total": 1}))
     cfgrun = {"methods": methods, "use_Method": mode.startswith("switch") or rng.random() < 0.2,
               "precompute": rng.random() < 0.5, "opts_eigs": opts_eigs, "opts_svd": opts_svd,
               "energy_tol": rng.choice((None, None, None, 1e-6, 1e-13)),
-              "Schmidt_tol": rng.choice((None, None, None, 1e-5, 1e-12))}
-    sig = (sym, sp.family, sp.fermionic, sp.phys.sectors, N, hform, shift is not None, len(cs["groups"]), n, sdesc["kind"],
-           sdesc.get("D_total"), sdesc["dtype"], sdesc["canonical"], sdesc.get("scaled"), tuple(methods), cfgrun["use_Method"], cfgrun["precompute"],
-           repr(cfgrun["opts_eigs"]), repr(opts_svd), cfgrun["energy_tol"], cfgrun["Schmidt_tol"])
-    witness = {"idx": idx, "space": sp.desc(), "N": N, "H_form": hform, "terms": T.terms_desc(cs["groups"]), "shift": shift,
-               "charge": list(n), "sector_dim": int(len(dn.idx)), "sector_levels": [float(dn.ev[0]), float(dn.ev[-1])], "start": sdesc, "bond_dims_start": T.total_bond_dims(psi),
-               "run": {k: (v if k != "opts_eigs" else repr(v)) for k, v in cfgrun.items()}}
+              "Schmidt_tol": rng.choice((None, None, None, 1e-5, 1e-12)),
+              "project": [] if rng.random() < 0.1 else None,          # an empty list is the same as no projection
+              "form": form, "step": rng.randint(1, 3), "step_with_iterator_flag": rng.random() < 0.5}
+    if form == "step":
+        cfgrun["energy_tol"] = cfgrun["Schmidt_tol"] = None               # yields of the step form stay predictable
+    # optional arguments left out: none / one / all (pure defaults: dmrg_(psi, H))
+    r = rng.random()
+    optional = ("method", "max_sweeps", "precompute", "opts_eigs", "opts_svd", "energy_tol", "Schmidt_tol", "project")
+    if r < 0.08:
+        cfgrun["omit"] = frozenset(optional)
+        cfgrun["form"] = form = "direct"
+    elif r < 0.40:
+        cfgrun["omit"] = frozenset([rng.choice(optional)])
+    else:
+        cfgrun["omit"] = frozenset()
+    apply_omissions(cfgrun)
+    methods, opts_eigs, opts_svd = cfgrun["methods"], cfgrun["opts_eigs"], cfgrun["opts_svd"]
+    sig = (sym, sp.family, sp.fermionic, sp.phys.sectors, N, hform, repr(special), shift is not None, len(cs["groups"]), n,
+           sdesc["kind"], sdesc.get("D_total"), sdesc["dtype"], sdesc["canonical"], sdesc.get("scaled"), tuple(methods),
+           cfgrun["use_Method"], cfgrun["precompute"], repr(opts_eigs), repr(opts_svd), cfgrun["energy_tol"], cfgrun["Schmidt_tol"],
+           form, cfgrun["step"] if form == "step" else None, tuple(sorted(cfgrun["omit"])), cfgrun["project"] is not None)
+    witness = dict(witness0, sector_dim=int(len(dn.idx)), sector_levels=[float(dn.ev[0]), float(dn.ev[-1])],
+                   bond_dims_start=T.total_bond_dims(psi),
+                   run={k: (sorted(v) if k == "omit" else (repr(v) if k in ("opts_eigs", "project") else v)) for k, v in cfgrun.items()})
     ctx.count("H:" + ("list" if hform == "list" else "single"))
     ctx.count("Hform:" + hform)
     ctx.count("start:" + sdesc["kind"])
     ctx.count("start:" + ("canonical" if sdesc["canonical"] else "noncanonical"))
+    if sdesc.get("scaled"):
+        ctx.count("start:scaled")
     ctx.count("sym:" + sym)
+    ctx.count(f"N={N}")
+    ctx.count("omitted:" + ("all" if len(cfgrun["omit"]) > 1 else (next(iter(cfgrun["omit"])) if cfgrun["omit"] else "none")))
+    if cfgrun["project"] == []:
+        ctx.count("project=[]")
+    if opts_svd == {} and "2site" in methods:
+        ctx.count("2site_with_empty_opts_svd")
     if sp.fermionic:
         ctx.count("fermionic_cases")
     if np.iscomplexobj(Hd):
@@ -529,19 +763,39 @@ def run_case(ctx, idx):
     if without_which(opts_eigs) and positive and len(dn.idx) >= 2:
         ctx.count("runs_opts_eigs_without_which_on_positive_spectrum")
 
-    res = monitored_run(ctx, psi, H, dn, counts, cfgrun, "main", witness)
+    psi0 = psi.shallow_copy()
+    if N == 1 and cfgrun["Schmidt_tol"] is not None:
+        # a chain of one site has no cut: nothing to compare, i.e. the Schmidt criterion is trivially met (or the argument is
+        # rejected with a YastnError); a foreign exception is reported under its own key
+        import yastn
+        ctx.count("N=1_with_Schmidt_tol")
+        try:
+            res = monitored_run(ctx, psi, H, dn, counts, cfgrun, "main", witness, rng=rng)
+        except yastn.YastnError:
+            ctx.count("N=1_with_Schmidt_tol_rejected")
+            return
+        except ValueError as e:
+            ctx.violation("N=1:Schmidt_tol:ValueError", f"dmrg_ on a one-site chain with Schmidt_tol={cfgrun['Schmidt_tol']} raised {e!r}: "
+                          f"no Schmidt values are recorded for N=1 and 'max(... for k in Schmidt.keys())' gets an empty sequence", witness)
+            return
+    else:
+        res = monitored_run(ctx, psi, H, dn, counts, cfgrun, "main", witness, rng=rng)
     nontrivial = len(dn.idx) >= 2 and res["sweeps"] >= 1
-    ctx.case(sig, nontrivial, {k: witness[k] for k in ("space", "N", "H_form", "shift", "charge", "sector_dim", "sector_levels", "start", "bond_dims_start", "run")})
+    ctx.case(sig, nontrivial, {k: witness[k] for k in ("space", "N", "H_form", "H_special", "shift", "charge", "sector_dim", "sector_levels",
+                                                        "start", "bond_dims_start", "run")})
     if res["sweeps"] < len(methods):
         ctx.count("stopped_early_by_tolerance")
+    if form == "iterator" and len(set(methods)) == 1 and res["out"] is not None and rng.random() < 0.3:
+        compare_forms(ctx, psi0, H, dn, counts, cfgrun, res, witness)
 
     # ---------------- convergence stage (premise-conditioned eigenstate clause)
     want = rng.random() < (0.5 if ctx.tier == "thorough" else 0.45)
-    if not want or len(dn.idx) < 2 or len(dn.idx) > 150 or sp.d ** N > 300:
+    exotic = special is not None and (special["special"] != "scaled" or abs(special["log10"]) > 4)
+    if not want or exotic or len(dn.idx) < 2 or len(dn.idx) > 150 or sp.d ** N > 300:
         return
     ctx.count("convergence_stage_runs")
     psi_c = T.make_mps(rng, cs["nprng"], sp, N, n, mode="full", dtype=rng.choice(("float64", "complex128")), counts=counts)
-    m2 = rng.choice(("1site", "2site"))
+    m2 = rng.choice(("1site", "2site")) if N > 1 else "1site"      # a 2site sweep of a one-site chain updates nothing
     cfg2 = {"methods": [m2] * 30, "use_Method": False, "precompute": rng.random() < 0.5,
             "opts_eigs": stage_opts(rng),
             "opts_svd": {"D_total": 100000} if m2 == "2site" else None}
@@ -578,19 +832,30 @@ def run_case(ctx, idx):
         return
     ctx.count("penalised_runs")
     width = float(dn.ev[-1] - dn.ev[0])
-    default_pen = width < 40 and rng.random() < 0.5
-    penalty = 100 if default_pen else float(round(2 * width + 1 + rng.random(), 3))
-    project = [psi_c] if default_pen else [(penalty, psi_c)]
-    vphi, _ = T.mps_dense(psi_c, sp)       # the projected MPS exactly as it is (its norm can deviate from 1, see EIGS_KEY)
-    dn.add_penalty(penalty, vphi[dn.idx])
+    default_ok = 100 > 2.5 * width and 100 < 1e3 * dn.scale            # the default penalty (100) is above the gap and not absurdly large
+    own = float(2 * width + (1 + rng.random()) * dn.scale)
+    pform = rng.choice(("default", "default-twice", "tuple", "split", "tuple")) if default_ok else rng.choice(("tuple", "split", "tuple"))
+    if pform == "default":
+        project, pens = [psi_c], [100]
+    elif pform == "default-twice":
+        project, pens = [psi_c, psi_c], [100, 100]                       # a repeated state: the penalties add up
+    elif pform == "split":
+        project, pens = [(0.4 * own, psi_c), (0.6 * own, psi_c)], [0.4 * own, 0.6 * own]
+    else:
+        project, pens = [(own, psi_c)], [own]
+    ctx.count("project_form:" + pform)
+    vphi, _ = T.mps_dense(psi_c, sp)       # the projected MPS exactly as it is
+    for pz in pens:
+        dn.add_penalty(pz, vphi[dn.idx])
+    penalty = sum(pens)
     psi_p = T.make_mps(rng, cs["nprng"], sp, N, n, mode="full", dtype=rng.choice(("float64", "complex128")), counts=counts)
-    m3 = rng.choice(("1site", "2site"))
+    m3 = rng.choice(("1site", "2site")) if N > 1 else "1site"      # a 2site sweep of a one-site chain updates nothing
     cfg3 = {"methods": [m3] * 40, "use_Method": False, "precompute": rng.random() < 0.5,
             "opts_eigs": stage_opts(rng),
             "opts_svd": {"D_total": 100000} if m3 == "2site" else None, "project": project}
     if without_which(cfg3["opts_eigs"]):
         ctx.count("penalised_runs_opts_eigs_without_which")      # the penalty itself puts a large positive level on top
-    w3 = dict(witness, stage="penalised", penalty=penalty, default_penalty=default_pen, run3={k: repr(v) for k, v in cfg3.items() if k != "project"})
+    w3 = dict(witness, stage="penalised", penalty=penalty, project_form=pform, run3={k: repr(v) for k, v in cfg3.items() if k != "project"})
     r3 = monitored_run(ctx, psi_p, H, dn, counts, cfg3, "penalised", w3, stop_when_converged=True)
     if not (r3["converged"] and (T.exactness_premise(psi_p, counts) or
                                  (T.is_full_manifold(psi_p, counts) and schmidt_full(dn.embed(r3["vs"]), sp, N, counts)))):
@@ -598,25 +863,60 @@ def run_case(ctx, idx):
         return
     ctx.count("penalised_premise_met")
     vp = r3["vs"]
-    ov = abs(np.vdot(vs, vp))
-    if not ctx.margin("project-overlap", ov, 1e-5):
-        ctx.violation("project:not-orthogonal", f"penalised run (penalty {penalty}) converged with |<phi0|psi>| = {ov:.3e}", w3)
+    at_target = judge_penalised(ctx, dn, [vs], vp, f"penalised run (penalty {penalty:.4g}, project given as '{pform}')", w3)
+
+    # ---------------- second penalised stage: two projected eigenstates, listed in any order, possibly repeated
+    rp = float(np.linalg.norm(dn.Hp @ vp - dn.pen_energy(vp) * vp))
+    if not at_target or rp > 1e-7 * dn.scale or len(dn.idx) < 4 or rng.random() > 0.4:
+        return
+    ctx.count("penalised2_runs")
+    vphi1, _ = T.mps_dense(psi_p, sp)
+    entries = [(own * rng.uniform(1.0, 1.5), psi_c, vphi[dn.idx]), (own * rng.uniform(1.0, 1.5), psi_p, vphi1[dn.idx])]
+    if rng.random() < 0.4:
+        entries.append((own * 0.3,) + rng.choice(entries)[1:])                   # one of the states listed twice
+    rng.shuffle(entries)
+    dn.pen = []
+    for pz, _, vec in entries:
+        dn.add_penalty(pz, vec)
+    psi_q = T.make_mps(rng, cs["nprng"], sp, N, n, mode="full", dtype=rng.choice(("float64", "complex128")), counts=counts)
+    m4 = rng.choice(("1site", "2site")) if N > 1 else "1site"      # a 2site sweep of a one-site chain updates nothing
+    cfg4 = {"methods": [m4] * 40, "use_Method": False, "precompute": rng.random() < 0.5, "opts_eigs": stage_opts(rng),
+            "opts_svd": {} if m4 == "2site" else None, "project": [(pz, st_) for pz, st_, _ in entries]}
+    w4 = dict(witness, stage="penalised2", penalties=[pz for pz, _, _ in entries], order=["phi0" if st_ is psi_c else "phi1" for _, st_, _ in entries],
+              run4={k: repr(v) for k, v in cfg4.items() if k != "project"})
+    r4 = monitored_run(ctx, psi_q, H, dn, counts, cfg4, "penalised2", w4, stop_when_converged=True)
+    if not (r4["converged"] and (T.exactness_premise(psi_q, counts) or
+                                 (T.is_full_manifold(psi_q, counts) and schmidt_full(dn.embed(r4["vs"]), sp, N, counts)))):
+        ctx.count("premise_unmet:penalised2-not-converged-or-no-complete-site")
+        return
+    ctx.count("penalised2_premise_met")
+    judge_penalised(ctx, dn, [vs, vp], r4["vs"], f"run penalised by two eigenstates listed as {w4['order']}", w4)
+
+
+def judge_penalised(ctx, dn, projected, vp, tag, witness):
+    """Converged penalised run at maximal bond dimension: orthogonal to every projected eigenstate and at the lowest level of
+    H + sum_i penalty_i |phi_i><phi_i|.  Returns True when it sits at that level."""
+    for j, vs in enumerate(projected):
+        ov = abs(np.vdot(vs, vp))
+        if not ctx.margin("project-overlap", ov, 1e-5):
+            ctx.violation("project:not-orthogonal", f"{tag} converged with |<phi{j}|psi>| = {ov:.3e}", witness)
     Ep = dn.energy(vp)
     target = float(dn.evp[0])
     if abs(Ep - target) <= 1e-7 * dn.scale:
         ctx.margin("project-next-level", abs(Ep - target), 1e-7 * dn.scale)
+        return True
+    rp = float(np.linalg.norm(dn.Hp @ vp - dn.pen_energy(vp) * vp))
+    if rp <= 1e-6 * dn.scale and Ep > target:
+        ctx.margin("project-next-level (not judged: stationary at a higher level)", abs(Ep - target), 1e-7 * dn.scale)
+        # converged to a higher eigenstate of H + sum penalty |phi><phi| (a stationary point of the sweep, e.g. protected by
+        # a symmetry of the random Hamiltonian that the tensors do not encode): convergence to the *lowest* level is an
+        # asymptotic promise, so this is counted and not judged
+        ctx.count("penalised_stuck_in_higher_eigenstate")
     else:
-        rp = float(np.linalg.norm(dn.Hp @ vp - dn.pen_energy(vp) * vp))
-        if rp <= 1e-6 * dn.scale and Ep > target:
-            ctx.margin("project-next-level (not judged: stationary at a higher level)", abs(Ep - target), 1e-7 * dn.scale)
-            # converged to a higher eigenstate of H + penalty |phi0><phi0| (a stationary point of the sweep, e.g. protected by
-            # a symmetry of the random Hamiltonian that the tensors do not encode): convergence to the *lowest* level is an
-            # asymptotic promise, so this is counted and not judged
-            ctx.count("penalised_stuck_in_higher_eigenstate")
-        else:
-            ctx.margin("project-next-level (violating cases)", abs(Ep - target), 1e-7 * dn.scale)
-            ctx.violation("project:wrong-level", f"penalised run converged at <H> = {Ep!r}; lowest level of H + penalty|phi0><phi0| is "
-                          f"{target!r} (levels {dn.ev[:3].tolist()})", w3)
+        ctx.margin("project-next-level (violating cases)", abs(Ep - target), 1e-7 * dn.scale)
+        ctx.violation("project:wrong-level", f"{tag} converged at <H> = {Ep!r}; lowest level of H + sum penalty|phi><phi| is "
+                      f"{target!r} (levels {dn.ev[:3].tolist()})", witness)
+    return False
 
 
 # ------------------------------------------------------------------ canaries
